@@ -701,7 +701,17 @@ func (h *SexpHash) FillHashFromShadow(env *Zlisp, src interface{}) error {
 	for i, det := range h.DetOrder {
 		_ = i
 		//Q("\n looking at det for %s; %v-th entry in h.DetOrder\n", det.FieldJsonTag, i)
-		goField := vaSrc.Field(det.FieldNum)
+		if det.StructField.Anonymous {
+			// an embedded struct: its fields follow in DetOrder and are
+			// promoted into this record
+			continue
+		}
+		// det.FieldNum indexes the struct that declares the field, which
+		// for a promoted field is the embedded struct: walk the path.
+		goField := vaSrc
+		for _, p := range det.EmbedPath {
+			goField = goField.Field(p.ChildFieldNum)
+		}
 		val, err := fillHashHelper(goField.Interface(), 0, env, false)
 		if err != nil {
 			//Q("got err='%s' back from fillHashhelper", err)
